@@ -6,8 +6,8 @@
 // For every design (design programs of lib/designgen.py read from <programs>, plus the hand written
 // designs named in the comma separated <handlist>) the process performs
 //   * <nbuilds> complete constructions  (build index b = 0 .. nbuilds-1)  and
-//   * <shuffles> further constructions on which Circuit::shuffleNodes() is called s = 1 .. shuffles
-//     times before post-processing,
+//   * <shuffles> further constructions whose node storage order is permuted before post-processing
+//     (variant 1: Circuit::shuffleNodes(), 2: reversed, 3..: seeded random permutations),
 // each one: frontend construction -> design.postprocess() -> VHDL export (+ test bench recorder, project
 // file, clocks/constraints file) -> simulation with stimuli that are a function of
 // (VERIF_SEED, design id) only.  Everything is written below
@@ -33,6 +33,8 @@
 // clocks, two entities) compare oppositely by address in builds 2 and 3, whatever the allocator does.
 #include "netdump.h"
 #include <gatery/export/vhdl/VHDLExport.h>
+#include <gatery/hlim/supportNodes/Node_Default.h>
+#include <random>
 #include <gatery/export/vhdl/AST.h>
 #include <gatery/export/vhdl/Entity.h>
 #include <gatery/export/vhdl/Block.h>
@@ -215,6 +217,14 @@ void operator delete[](void *p, std::align_val_t, const std::nothrow_t &) noexce
 // ------------------------------------------------------------------------------------------------
 // design programs: lib/designgen.py statements + memories + partitions
 // ------------------------------------------------------------------------------------------------
+// `u = UIntDefault(v)` would pick UInt's converting constructor (an unsized temporary); the default assignment of
+// vectors is BaseBitVector::operator=(const BaseBitVectorDefault&).  The constant is given the signal's width.
+static void vecDefault(UInt &u, uint64_t value) {
+	std::string lit = std::to_string(u.width().value) + "b";
+	for (size_t i = u.width().value; i-- > 0; ) lit += ((value >> i) & 1) ? '1' : '0';
+	u.SliceableBitVector<UInt, UIntDefault>::operator=(UIntDefault(lit.c_str()));
+}
+
 class InterpX : public nd::Interp {
 public:
 	bool partitions = false;
@@ -253,6 +263,26 @@ public:
 			auto &m = *mems.at(memIdx.at(t[2]));
 			UInt x = m[asU(t[3])];
 			setU(t[1], x);
+		} else if (op == "defb") {     // defb NAME 0|1|x      : Bit NAME = BitDefault(v)  (a never driven bit with a default, constructed IN PLACE)
+			auto p = std::make_shared<nd::Val>(); p->v.emplace<Bit>();
+			p->b() = BitDefault(t[2] == "1" ? '1' : t[2] == "0" ? '0' : 'x');
+			b.vars[t[1]] = p;
+		} else if (op == "defu") {     // defu NAME WIDTH VALUE : UInt NAME = WIDTH; NAME = UIntDefault(VALUE)
+			auto p = std::make_shared<nd::Val>(); p->v.emplace<UInt>(bw(t[2]));
+			vecDefault(p->u(), std::stoull(t[3]));
+			b.vars[t[1]] = p;
+		} else if (op == "fwdb") {     // fwdb NAME : forward declared bit (read before it is assigned); fwdu NAME WIDTH
+			auto p = std::make_shared<nd::Val>(); p->v.emplace<Bit>(); b.vars[t[1]] = p;
+		} else if (op == "fwdu") {
+			auto p = std::make_shared<nd::Val>(); p->v.emplace<UInt>(bw(t[2])); b.vars[t[1]] = p;
+		} else if (op == "defagain") { // defagain NAME VALUE : NAME = BitDefault / UIntDefault(VALUE) on the EXISTING signal object
+			nd::Val &d = get(t[1]);
+			if (d.isBit()) d.b() = BitDefault(t[2] == "1" ? '1' : t[2] == "0" ? '0' : 'x');
+			else vecDefault(d.u(), std::stoull(t[2]));
+		} else if (op == "defsig") {   // defsig NAME SRC : NAME = Default(SRC) - the default is another signal
+			nd::Val &d = get(t[1]);
+			if (d.isBit()) d.b() = BitDefault(asB(t[2]));
+			else d.u().SliceableBitVector<UInt, UIntDefault>::operator=(UIntDefault(asU(t[2])));
 		} else if (op == "dclock") {   // dclock NAME PARENT|base [name=PIN] [rstname=X] [active=low] [rst=sync|async|none] [trig=falling] [mult=N/D]
 			ClockConfig cfg = clockCfg(t, 3);
 			Clock parent = t[2] == "base" ? ClockScope::getClk() : *clocks.at(t[2]);
@@ -409,8 +439,54 @@ static void areaFamily(int v) {
 	pinOut(acc).setName("acc");
 }
 
+// Default values: `x = BitDefault(v)` creates a Node_Default that yields v exactly if x is otherwise left undriven
+// (its input loops back to itself).  Post-processing resolves the default nodes one after the other; with several
+// defaults on ONE never driven signal the first specified one wins - if they are visited in creation (id) order.
+struct HandshakeWithDefaults {
+	Bit ready = BitDefault('1');        // the struct's own default
+	Bit valid = BitDefault('0');
+	UInt data = 3_b;
+};
+static void genericSink(HandshakeWithDefaults &h, const Bit &stall, bool overrideReady) {
+	h.ready = BitDefault('0');          // generic code gives the same never driven signal another default
+	if (overrideReady) { IF (stall) h.ready = '0'; }
+}
+static void defaultFamily(int v) {
+	Bit stall = pinIn().setName("stall"), go = pinIn().setName("go");
+	UInt din = pinIn(3_b).setName("din");
+	for (int k = 0; k < 3; k++) {
+		std::string n = "hs" + std::to_string(k);
+		std::optional<Area> area;
+		if ((v + k) % 2) area.emplace(n + "_ent", true);
+		HandshakeWithDefaults h;
+		Bit readyEarly = h.ready;                     // read before anything else happens to it: sees the final value
+		h.data = din + k;
+		IF (go) h.valid = '1';                        // conditional override of a default
+		genericSink(h, stall, (v + k) % 3 == 0);
+		if (k == 2) h.valid = go & stall;             // unconditional override: the default is dead
+		UInt extra = 2_b;
+		vecDefault(extra, 2);
+		vecDefault(extra, 1);
+		if (k == 1) { IF (stall) extra = 3; }
+		UInt q = reg(h.data, 0);
+		IF (h.ready & h.valid) q = q + 1;
+		pinOut(h.ready).setName(n + "_ready");
+		pinOut(readyEarly).setName(n + "_ready_early");
+		pinOut(h.valid).setName(n + "_valid");
+		pinOut(extra).setName(n + "_extra");
+		pinOut(q).setName(n + "_q");
+	}
+	Bit third = BitDefault('1');
+	third = BitDefault('0');
+	third = BitDefault('1');
+	pinOut(third).setName("third");
+}
+
 static std::vector<HandDesign> handDesigns() {
 	std::vector<HandDesign> res;
+	res.push_back({"h_default0", "single", "default", [] { defaultFamily(0); }});
+	res.push_back({"h_default1", "entity", "ghdl", [] { defaultFamily(1); }});
+	res.push_back({"h_default2", "entity", "vivado", [] { defaultFamily(2); }});
 	res.push_back({"h_areafam0", "single", "default", [] { areaFamily(0); }});
 	res.push_back({"h_areafam1", "entity", "ghdl", [] { areaFamily(1); }});
 	res.push_back({"h_areafam2", "partition", "vivado", [] { areaFamily(2); }});
@@ -720,7 +796,8 @@ static std::map<std::string, std::vector<std::vector<std::string>>> g_fixedStim;
 
 struct Job { std::string id; const nd::Program *prog = nullptr; const HandDesign *hand = nullptr; std::string omode; std::string tool = "default"; };
 
-// one complete construction.  `shuffles` > 0: Circuit::shuffleNodes() that many times before postprocess.
+// one complete construction.  `shuffles` = permutation variant of the node storage order applied before postprocess (0 = none).
+static bool recordPasses = false;
 static bool construct(const Job &job, const std::string &dir, int perturbLevel, uint64_t pseed, size_t shuffles, size_t cycles, std::string &err) {
 	namespace fs = std::filesystem;
 	const hlim::ClockRational period(1, 100'000'000);
@@ -769,9 +846,70 @@ static bool construct(const Job &job, const std::string &dir, int perturbLevel, 
 			perturb::inside = old;
 		}
 
-		for (size_t s = 0; s < shuffles; s++) design.getCircuit().shuffleNodes();
+		{
+			// diagnostics: default nodes, and how many of them have ANOTHER default node in their (combinational) input cone
+			bool old = perturb::inside; perturb::inside = true;
+			size_t nDef = 0, nChained = 0;
+			for (auto &n : design.getCircuit().getNodes()) {
+				auto *d = dynamic_cast<hlim::Node_Default*>(n.get());
+				if (!d) continue;
+				nDef++;
+				std::set<hlim::BaseNode*> seen; std::vector<hlim::BaseNode*> stack;
+				if (d->getDriver(0).node) stack.push_back(d->getDriver(0).node);
+				bool chained = false;
+				while (!stack.empty() && !chained && seen.size() < 4000) {
+					auto *x = stack.back(); stack.pop_back();
+					if (!seen.insert(x).second) continue;
+					if (x != d && dynamic_cast<hlim::Node_Default*>(x)) { chained = true; break; }
+					if (x == d) continue;
+					for (size_t i = 0; i < x->getNumInputPorts(); i++) if (x->getDriver(i).node) stack.push_back(x->getDriver(i).node);
+				}
+				nChained += chained;
+			}
+			meta << "defaults " << nDef << " chained " << nChained << "\n";
+			perturb::inside = old;
+		}
+		// node storage order:  1 = Circuit::shuffleNodes() (fixed default-seeded mt19937),  2 = REVERSED,
+		// >= 3 = random permutations seeded by (VERIF_SEED, design, variant)
+		if (shuffles == 1) design.getCircuit().shuffleNodes();
+		else if (shuffles >= 2) {
+			auto &nodes = const_cast<std::vector<std::unique_ptr<hlim::BaseNode>>&>(design.getCircuit().getNodes());
+			if (shuffles == 2) std::reverse(nodes.begin(), nodes.end());
+			else {
+				std::mt19937_64 rng(seed * 1000003ull + strHash(job.id) * 131ull + shuffles);
+				for (size_t i = nodes.size(); i > 1; i--) std::swap(nodes[i - 1], nodes[rng() % i]);
+			}
+		}
+		std::ofstream passes;
+		if (recordPasses) {
+			// id-free structural fingerprint of the circuit after every post-processing pass (pass-boundary hook H1)
+			passes.open(dir + "/passes.txt");
+			size_t idx = 0;
+			hlim::g_verifPassHook = [&passes, &idx](hlim::Circuit &c, const char *name) {
+				bool old = perturb::inside; perturb::inside = true;
+				std::vector<uint64_t> hs;
+				for (auto &n : c.getNodes()) {
+					std::string t = n->getTypeName();
+					t += "/" + std::to_string(n->getNumInputPorts()) + "/" + std::to_string(n->getNumOutputPorts());
+					for (size_t o = 0; o < n->getNumOutputPorts(); o++) t += ":" + std::to_string(n->getOutputConnectionType(o).width) + "u" + std::to_string(n->getDirectlyDriven(o).size());
+					if (auto *k = dynamic_cast<hlim::Node_Constant*>(n.get())) t += "=" + nd::bitsOrE(k->getValue());
+					for (size_t i = 0; i < n->getNumInputPorts(); i++) {
+						auto d = n->getDriver(i);
+						t += "<";
+						if (d.node) { t += d.node->getTypeName(); t += "." + std::to_string(d.port); if (auto *k = dynamic_cast<hlim::Node_Constant*>(d.node)) t += "=" + nd::bitsOrE(k->getValue()); }
+					}
+					hs.push_back(strHash(t));
+				}
+				std::sort(hs.begin(), hs.end());
+				uint64_t h = 1469598103934665603ull;
+				for (auto x : hs) { h ^= x; h *= 1099511628211ull; }
+				passes << idx++ << " " << name << " " << h << " " << hs.size() << "\n";
+				perturb::inside = old;
+			};
+		}
 		perturb::phase();
-		design.postprocess();
+		try { design.postprocess(); } catch (...) { hlim::g_verifPassHook = nullptr; throw; }
+		hlim::g_verifPassHook = nullptr;
 
 		auto pins = nd::findPins(design.getCircuit());
 		size_t nStim = 3;
@@ -938,6 +1076,7 @@ int main(int argc, char **argv) {
 			if (b > 0) perturb::scramble(pseed * 131 + b, 256 + 64 * b);
 			// build 0 plain malloc, 1 randomly perturbed operator new, 2 sorted pools descending, 3 ascending, 4 random pop, 5.. as 1
 			int lvl = b == 0 ? 0 : b <= 4 ? (int)b : 1;
+			recordPasses = (b == 0 && shuffles > 0);
 			bool ok = construct(job, outroot + "/" + tag + "." + std::to_string(b) + "/" + job.id, lvl, pseed * 7919 + b, 0, cycles, err);
 			ok ? done++ : failed++;
 			if (!ok) std::cerr << "SKIP " << job.id << " build " << b << ": " << err.substr(0, 300) << "\n";
@@ -945,6 +1084,7 @@ int main(int argc, char **argv) {
 		for (size_t s = 1; s <= shuffles; s++) {
 			std::string err;
 			perturb::scramble(pseed * 977 + s, 128);
+			recordPasses = true;
 			bool ok = construct(job, outroot + "/" + tag + ".s" + std::to_string(s) + "/" + job.id, (int)(s % 5), pseed * 6007 + s, s, cycles, err);
 			ok ? done++ : failed++;
 			if (!ok) std::cerr << "SKIP " << job.id << " shuffle " << s << ": " << err.substr(0, 300) << "\n";
